@@ -496,12 +496,30 @@ func mat3(c *Ctx) {
 		c.Check(ok, Q(fn), fn.Pos(), "a dash-prefixed token other than '-' is refused only while options are not ended", why)
 	}
 	if fn := c.Fn("internal/matcher", "optsEnd.Match"); fn != nil {
-		stores := false
+		stores, guarded := false, false
 		ir.Instrs(fn, func(in ssa.Instruction) {
 			if st, ok := in.(*ssa.Store); ok {
 				if b, f, isF := ir.FieldAddr(st.Addr); isF && f == "RejectOptions" && c.isNamed(b.Type(), "internal/matcher", "ParseContext") {
 					if v, isC := ir.ConstBool(st.Val); isC && v && st.Block() == fn.Blocks[0] {
 						stores = true
+					}
+					// `if !c.RejectOptions { c.RejectOptions = true }`: skipped only when the flag is set already
+					if v, isC := ir.ConstBool(st.Val); isC && v && st.Block() != fn.Blocks[0] {
+						cut := map[ir.Edge]bool{}
+						for _, l := range rejectLoads(c, fn) {
+							for _, e := range ir.EdgesWhere(fn, l, true) {
+								cut[ir.Edge{From: e.From, To: e.To}] = true
+							}
+						}
+						around := false
+						for _, ret := range ir.Returns(fn) {
+							if ir.Reach(fn.Blocks[0], map[*ssa.BasicBlock]bool{st.Block(): true}, cut)[ret.Block()] {
+								around = true
+							}
+						}
+						if !around && len(cut) > 0 {
+							stores, guarded = true, true
+						}
 					}
 				}
 			}
@@ -512,7 +530,7 @@ func mat3(c *Ctx) {
 				okRet = false
 			}
 		}
-		c.Check(stores && okRet && len(fn.Blocks) == 1, Q(fn), fn.Pos(), "a spec `--` always matches, sets the flag and leaves the vector alone", "the spec-level `--` matcher does not unconditionally set the options-ended flag and return its input")
+		c.Check(stores && okRet && (len(fn.Blocks) == 1 || guarded), Q(fn), fn.Pos(), "a spec `--` always matches, sets the flag and leaves the vector alone", "the spec-level `--` matcher does not unconditionally set the options-ended flag and return its input")
 	}
 }
 
